@@ -132,6 +132,7 @@ func (s *store) Delete(key string, scope storelib.BlobScope) error {
 	}
 
 	s.flusher.abort(key)
+	verifYield("store.deleteAfterAbort", key)
 	err = s.disk.Delete(key)
 	if err != nil && !errors.Is(err, os.ErrNotExist) {
 		err = fmt.Errorf("disk store delete: %w", err)
